@@ -140,7 +140,7 @@ Proof. apply cast_fuel_enough; unfold cast_fuel; lia. Qed.
 
 Lemma wsgi_terminates p : wsgi env eh p <> WsOutOfFuel.
 Proof.
-  unfold wsgi, wsgi_tail. destruct (handle p) as [[evH st] o].
+  unfold wsgi, wsgi_tail, wsgi_tail_gen. destruct (handle p) as [[evH st] o].
   destruct (cast env eh cast_fuel 1 o st) as [w st' b| |] eqn:Hc.
   - destruct (if nobody (s_code st') || e_head env then (close_events w, WList []) else ([], w)) as [evC w'].
     destruct (headerlist st'); [discriminate|].
@@ -177,7 +177,7 @@ Inductive wsgi_case (p : program) : wsgi_res -> Prop :=
 
 Lemma wsgi_cases p : wsgi_case p (wsgi env eh p).
 Proof.
-  unfold wsgi, wsgi_tail. destruct (handle p) as [[evH st0] o] eqn:Hh.
+  unfold wsgi, wsgi_tail, wsgi_tail_gen. destruct (handle p) as [[evH st0] o] eqn:Hh.
   destruct (cast env eh cast_fuel 1 o st0) as [w0 st wrote| |] eqn:Hc.
   - fold (suppress st). destruct (headerlist st) as [hl|] eqn:Hl.
     + pose proof (WC_normal p _ _ _ _ _ _ _ Hh Hc Hl) as H.
@@ -373,13 +373,31 @@ Lemma close_exactly_once p evH st0 o w0 st wrote id :
   headerlist st <> None -> closer w0 = Some id ->
   count (is_close_of id) (all_events (wsgi env eh p)) = 1.
 Proof.
-  intros Hh Hc Hl Hid. unfold wsgi, wsgi_tail. rewrite Hh, Hc.
+  intros Hh Hc Hl Hid. unfold wsgi, wsgi_tail, wsgi_tail_gen. rewrite Hh, Hc.
   destruct (headerlist st) as [hl|]; [clear Hl|congruence].
   fold (suppress st). destruct (suppress st); cbn [all_events]; rewrite !count_app;
     rewrite (pre_not (is_close_of id) evH (pre_no_close_of id) (handle_pre _ _ _ _ Hh)).
   - rewrite close_events_closer, Hid. unfold count. simpl. rewrite Nat.eqb_refl. reflexivity.
   - rewrite (consume_closes (is_close_of id)) by reflexivity. rewrite Hid.
     unfold count. simpl. rewrite Nat.eqb_refl. reflexivity.
+Qed.
+
+(* config.catchall = False: either the request never reaches the except clause and the outcome
+   is the same, or the exception leaves wsgi() and start_response was not called at all *)
+Lemma wsgi_nocatch_cases p :
+  wsgi_nocatch env eh p = wsgi env eh p
+  \/ exists ev, wsgi_nocatch env eh p = WsEscaped ev /\ count is_start ev = 0.
+Proof.
+  unfold wsgi_nocatch, wsgi, wsgi_tail_nocatch, wsgi_tail, wsgi_tail_gen.
+  destruct (handle p) as [[evH st0] o] eqn:Hh.
+  pose proof (pre_not is_start evH pre_no_start (handle_pre _ _ _ _ Hh)) as H0.
+  destruct (cast env eh cast_fuel 1 o st0) as [w0 st wrote| |].
+  - destruct (if nobody (s_code st) || e_head env then (close_events w0, WList []) else ([], w0)) as [evC w'] eqn:E.
+    destruct (headerlist st); [left; reflexivity|]. right. eexists. split; [reflexivity|].
+    rewrite count_app, H0. destruct (nobody (s_code st) || e_head env); inversion E; subst;
+      [apply close_events_no_start|reflexivity].
+  - right. eexists. split; [reflexivity|exact H0].
+  - left. reflexivity.
 Qed.
 
 End WithApp.
@@ -441,7 +459,7 @@ Definition wf_mut (m : mut) : Prop :=
   | MStatus c l => Pst c l
   | MSetHeader n v | MAddHeader n v => Pn n /\ Pv v
   | MSetCookie _ v => Pv v
-  | MHook _ => True
+  | MHook _ | MDelHeader _ | MClearHeaders => True
   end.
 Definition wf_hres (h : hres) : Prop :=
   match h with HRet o => wf_out o | HRaiseHttp _ r => wf_resp r | HRaiseExc _ => True end.
@@ -514,12 +532,15 @@ Qed.
 
 Lemma st_ok_mut m st : wf_mut m -> st_ok st -> st_ok (apply_mut m st).
 Proof.
-  intros Hm [S1 [S2 S3]]. destruct m as [c l|n v|n v|n v|e]; simpl in *; unfold st_ok; simpl.
+  intros Hm [S1 [S2 S3]]. destruct m as [c l|n v|n v|n v|e|n|]; simpl in *; unfold st_ok; simpl.
   - auto.
   - destruct Hm. repeat split; auto using hs_ok_set.
   - destruct Hm. repeat split; auto using hs_ok_append.
   - repeat split; auto using cs_ok_set.
   - auto.
+  - repeat split; auto. unfold hs_ok in *. apply Forall_forall. intros x Hx. apply filter_In in Hx.
+    rewrite Forall_forall in S2. apply S2. tauto.
+  - repeat split; auto. constructor.
 Qed.
 
 Lemma st_ok_muts ms : forall st, Forall wf_mut ms -> st_ok st -> st_ok (apply_muts ms st).
